@@ -37,6 +37,7 @@ struct drv {
     unsigned calls, bound;
     int runaway;
     int hard_code;           /* what A_HARD returns */
+    int sticky_hard;         /* once a hard error was reported every further call reports it again */
     int hard_returned;       /* a hard error was handed to the library */
     int eio_returned;        /* ... and it was a scripted one (not the end of the stream) */
     int last_ret;
@@ -89,6 +90,10 @@ drv_step(struct drv *d, unsigned char *out, const unsigned char *in, size_t n)
     }
     if (d->hard_returned)
         d->calls_after_hard++;
+    if (d->hard_returned && d->sticky_hard) {
+        /* an endpoint that has failed stays failed */
+        return d->last_ret;
+    }
     if (d->base != NULL) {
         const unsigned char *p = d->is_sink ? in : out;
         if (p != d->base + d->pos)
@@ -149,6 +154,18 @@ static ssize_t
 snk_chunk(void *drv, const void *p, size_t n)
 {
     return drv_step(drv, NULL, p, n);
+}
+
+static size_t plumb_window;
+static unsigned char plumb_win[8];
+
+static ByteBuffer
+plumb_getbuffer(Source *src)
+{
+    (void)src;
+    ByteBuffer b;
+    byte_buffer_use(&b, plumb_win, plumb_window);
+    return b;
 }
 
 static void
@@ -441,6 +458,18 @@ plumb(int fun, int srcchunk, int snkchunk, unsigned scode, size_t sl, unsigned k
     Sink k;
     mk_src(&s, &sd);
     mk_snk(&k, &kd);
+    /* sts_n and sts_drain "make sense where the source or the sink implements the getbuffer extension": a third
+     * of their runs over chunk sources expose a transfer window of 1..5 octets (a scratch buffer the plumbing
+     * reads the source's octets into, as endpoints/core.c uses it) */
+    if ((fun == F_N || fun == F_DRAIN) && srcchunk && (scode + kcode + N + L) % 3 == 0) {
+        plumb_window = 1 + (scode + 2 * kcode + N) % 5;
+        s.ext.getbuffer = plumb_getbuffer;
+        /* With a window in play the plumbing retries after a sink reported -ENOMEM; the octets already taken from
+         * the source are gone then. The extension has no written contract that says whether a sink may recover
+         * from that, so these runs use endpoints whose failure is final (DESIGN.md section 14). */
+        sd.sticky_hard = kd.sticky_hard = 1;
+        VH_COUNT("plumbing through a source with a transfer window");
+    }
     ByteBuffer aux;
     unsigned char *auxmem = NULL;
     if (fun >= F_SOME_AUX) {
@@ -530,6 +559,10 @@ plumb(int fun, int srcchunk, int snkchunk, unsigned scode, size_t sl, unsigned k
                 vh_fail("spurious-error", key, "%s: rc=%zd although no driver reported an error", ctx, rc);
             if (only_source_end && kd.pos != L)
                 vh_fail("not-everything-up-to-end", key, "%s: sink has %zu of %zu", ctx, kd.pos, L);
+            /* the source can only have reported its end if it was asked for more than the stream holds */
+            if (only_source_end && L >= N)
+                vh_fail("count", key, "%s: rc=%zd: the stream holds %zu octets, %zu were requested, yet the source was read to "
+                        "its end (source moved %zu, sink moved %zu)", ctx, rc, L, N, sd.pos, kd.pos);
         }
         break;
     default: /* drains */
